@@ -79,7 +79,21 @@ pub fn range_lattice<T: Fl>(lo: T, hi: T, tier: Tier, dense: bool) -> Vec<T> {
 /// in-range colours: product of the component lattices, filtered by the nominal range predicate
 pub fn colours<T: Fl>(sp: &Spec<T>, tier: Tier) -> Vec<V<T>> {
     let dense = sp.n == 1;
-    let lats: Vec<Vec<T>> = sp.comps.iter().map(|c| match c.kind { Kind::Hu => hue_lattice::<T>(tier), Kind::R(lo, hi) => range_lattice(lo, hi, tier, dense) }).collect();
+    let mut lats: Vec<Vec<T>> = sp.comps.iter().map(|c| match c.kind { Kind::Hu => hue_lattice::<T>(tier), Kind::R(lo, hi) => range_lattice(lo, hi, tier, dense) }).collect();
+    // soft limits: `Lch::max_chroma()` (128) and `Cam16UcsJmh::max_srgb_colorfulness()` (50) are the limits
+    // Saturate moves towards, but not bounds of the type (is_within_bounds has no upper chroma limit;
+    // Lch documents max_extended_chroma() = 181.02): colours above the soft limit are in range too
+    let soft: &[f64] = match sp.name {
+        "Lch" => &[150.0, 181.0],
+        "Cam16UcsJmh" => &[70.0, 100.0],
+        _ => &[],
+    };
+    if !soft.is_empty() {
+        if let Kind::R(_, hi) = sp.comps[1].kind {
+            lats[1].push(hi.up());
+            lats[1].extend(soft.iter().map(|&x| T::from64(x)));
+        }
+    }
     product(sp, &lats)
 }
 
